@@ -1,5 +1,7 @@
 (* Conversions between decimal strings / OCaml ints and the extracted positive / N / Z / nat. Hand-written glue. *)
+type ostring = string
 open Wfmodel
+type cstring = Wfmodel.string
 
 let rec pos_of_int (n:int) : positive =
   if n <= 1 then XH else if n land 1 = 0 then XO (pos_of_int (n lsr 1)) else XI (pos_of_int (n lsr 1))
@@ -13,7 +15,7 @@ let int_of_z (x:z) : int = match x with Z0 -> 0 | Zpos p -> int_of_pos p | Zneg 
 
 (* arbitrary-size decimal parsing / printing through the extracted Z operations (beyond OCaml's 63-bit ints) *)
 let ten = z_of_int 10
-let z_of_string (s:string) : z =
+let z_of_string (s:ostring) : z =
   let neg = String.length s > 0 && s.[0] = '-' in
   let start = if neg || (String.length s > 0 && s.[0] = '+') then 1 else 0 in
   let acc = ref Z0 in
@@ -23,7 +25,7 @@ let z_of_string (s:string) : z =
     acc := Z.add (Z.mul !acc ten) (z_of_int d)
   done;
   if neg then Z.opp !acc else !acc
-let string_of_z (x:z) : string =
+let string_of_z (x:z) : ostring =
   let neg, a = (match x with Zneg p -> true, Zpos p | _ -> false, x) in
   if a = Z0 then "0" else begin
     let b = Buffer.create 20 in
@@ -41,3 +43,30 @@ let n_of_string s = Z.to_N (z_of_string s)
 let string_of_n x = string_of_z (Z.of_N x)
 let string_of_bool b = if b then "1" else "0"
 let bool_of_string s = (s = "1" || s = "true")
+
+(* Coq strings (String of ascii * string, Ascii of 8 bools) <-> OCaml strings; hex transport "x6162" *)
+let ascii_of_char (c:char) : ascii =
+  let n = Char.code c in
+  let b i = (n lsr i) land 1 = 1 in
+  Ascii (b 0, b 1, b 2, b 3, b 4, b 5, b 6, b 7)
+let char_of_ascii (a:ascii) : char =
+  match a with Ascii (b0,b1,b2,b3,b4,b5,b6,b7) ->
+    let v b i = if b then 1 lsl i else 0 in
+    Char.chr (v b0 0 + v b1 1 + v b2 2 + v b3 3 + v b4 4 + v b5 5 + v b6 6 + v b7 7)
+let coq_of_string (s:ostring) : cstring =
+  let r = ref EmptyString in
+  for i = String.length s - 1 downto 0 do r := String (ascii_of_char s.[i], !r) done; !r
+let string_of_coq (s:cstring) : ostring =
+  let b = Buffer.create 16 in
+  let rec go = function EmptyString -> () | String (a, t) -> Buffer.add_char b (char_of_ascii a); go t in
+  go s; Buffer.contents b
+let hex_of_string (s:ostring) : ostring =
+  let b = Buffer.create (2 * String.length s + 1) in
+  Buffer.add_char b 'x';
+  String.iter (fun c -> Buffer.add_string b (Printf.sprintf "%02x" (Char.code c))) s;
+  Buffer.contents b
+let string_of_hex (h:ostring) : ostring =
+  let h = if String.length h > 0 && h.[0] = 'x' then String.sub h 1 (String.length h - 1) else h in
+  String.init (String.length h / 2) (fun i -> Char.chr (int_of_string ("0x" ^ String.sub h (2*i) 2)))
+let hx (s:cstring) = hex_of_string (string_of_coq s)
+let unhx (h:ostring) = coq_of_string (string_of_hex h)
